@@ -18,6 +18,12 @@ PROTOCOL_FACTORIES = {"fsspec.get_mapper", "fsspec.filesystem", "fsspec.core.url
                       "fsspec.open_files", "fsspec.core.get_fs_token_paths"}
 
 
+def open_protocol(chk, repo):
+    """C07-G8: the cache protocol of open_image, evaluated in every combination of use_cache / create_cache / cache state (vlib/openmodel.py)"""
+    from .open_rules import open_rules
+    open_rules(chk, repo, "C07-G8", ('lookup', 'lookup-args', 'hit', 'write', 'write-args'), "open_image with recording collaborators: the cache is consulted exactly when use_cache is set, a hit is returned without opening the image, the cache is written exactly when create_cache is set and holds the returned group")
+
+
 def run(chk, repo):
     op = OpenPath(repo)
     chk.explanation = (
@@ -34,6 +40,7 @@ def run(chk, repo):
     chk.attempt(g3_threading, chk, op, "C07-G3")
     chk.attempt(g4, chk, op)
     chk.attempt(check_codec, chk, repo, "C07")
+    chk.attempt(open_protocol, chk, repo)
     chk.attempt(naming, chk, op)
     chk.attempt(cache_key, chk, op)
     chk.attempt(provenance, chk, op)
